@@ -18,11 +18,17 @@ import aval
 
 def short_fn(path):
     """function path without module segments (free functions keep their top-level module): moves between modules do not change it"""
-    if '<impl' in path:
-        path = path[path.index('<impl'):]
+    if '<' in path:
+        if '<impl' in path:
+            path = path[path.index('<impl'):]
         return re.sub(r'\b(?:[a-z_][a-z_0-9]*::)+(?=[A-Za-z_<])', '', path)
     segs = path.split('::')
     return segs[0] + '::' + segs[-1] if len(segs) > 2 else path
+
+
+def entry_label(label):
+    """entry-function label with the bound width abstracted: PxE2<32>::from_p8e0 -> PxE2<N>::from_p8e0"""
+    return re.sub(r'<\d+>', '<N>', label)
 
 
 def site_key(site):
